@@ -130,7 +130,8 @@ def c08():
         "props_file": "Props/C08.v",
         "theorems": ["C08_wellformed", "C08_wellformed_labels", "C08_meaning", "C08_every_insertion",
                      "C08_results_from_leaves", "C08_no_wrap_update", "C08_width_matters",
-                     "C08_source_tie_insert", "C08_source_tie_split_leaf", "C08_source_tie_split_inner"],
+                     "C08_source_tie_insert", "C08_source_tie_split_leaf", "C08_source_tie_split_inner",
+                     "C08_reachable_nodes_ok", "C08_row_is_source", "C08_reachable_insertions_are_source", "C08_source_tie_chain_splice"],
         "suites": [suite_hist.suite_seq_refine("C08"), suite_hist.suite_tiny_long("C08"), suite_hist.suite_tree_walk, suite_hist.suite_boundary,
                    suite_hist.suite_exhaustive, suite_sub.suite_sub],
         "search": suite_hist.search_hist("C08"),
